@@ -52,6 +52,9 @@ mod verif_replay_matcher {
         "start: /ab(c[de])?/\n",
         "start: (\"ab\" | \"ac\" | \"b\") /[a-b]{0,3}/ \"z\"\n",
         "start: item item item\nitem: \"x\" | \"xy\" | \"y\"\n",
+        // a forced single-id token position: the parser holds \\xFF[55], token 55 is matched by id (defect D5)
+        "start: \"a\" <[55]> /[b-d]+/\n",
+        "start: /[a-c]/ <[55]> <[56]> \"b\"\n",
     ];
 
     #[test]
